@@ -154,7 +154,9 @@ CLAIMED["C12"] = {
             "strike (t^k after k), lerp a a t = a (fixed point); the data _add_data_point keeps all weigh more than the "
             "rejection threshold, different strikes have different blow times, and positive weights on two different "
             "blows make the normal matrix non-singular (det = sum over pairs w_i w_j (x_i-x_j)^2 > 0), so collinear "
-            "recovery holds with no hypothesis about the matrix. Tied to the code by keep-going sessions with humans on "
+            "recovery holds with no hypothesis about the matrix; on the model's _add_data_point one regression over "
+            "data on the humans' line moves start and interval towards it by exactly the inertia in force (inertia 0: "
+            "onto it). Tied to the code by keep-going sessions with humans on "
             "their own even line (tempo 0.93..1.07, >= 1/3 human bells, human or Wheatley leading, dataset sizes 5..30, "
             "tempo changes); oracle: distance of Wheatley's strikes from the humans' line.",
     "design_ref": "DESIGN.md section 3, C12", "note": TBR + " Retention of the strikes under the 7% tempo bound is checked "
